@@ -678,6 +678,11 @@ class World(object):
         self.call("update_task_state", tid, route, ev)
         self.after_call("completed")
         rec = self.record(tid, route)
+        if wfb not in TERMINAL_WF and self.status in TERMINAL_WF:
+            # the execution whose report completed the workflow (the engine flags its record
+            # terminal even if the task itself did not complete, e.g. a with-items task that
+            # rests paused with items held back when the cancellation completes)
+            self.completing_exec = x
         if a["item"] is not None:
             it = x.items
             it["inflight"].discard(a["item"])
@@ -1162,6 +1167,7 @@ class World(object):
     terminal_at_offer = None
     retry_cut = False
     last_done = None
+    completing_exec = None
     canceled_by_request = False
     partial_items = False
     kf_items_loop = None
@@ -1191,6 +1197,12 @@ class World(object):
             if self.accepted_rerun:
                 self.report("C17", "not_stuck", "after an accepted rerun: nothing to do, workflow is %s" % st,
                             tags=tags, kf=kf)
+            ub = self.ledger.unsatisfied_barriers()
+            if kf is None and ub and st in ("running", "resuming") and not self.cancel_req and not self.ledger.runtime_errors \
+                    and not [c for c in self.ledger.outstanding() if not c.cleanup]:
+                # "... the workflow fails with an unreachable-join error instead of succeeding or hanging"
+                self.report("C07", "unreachable_fails", "workflow rests in %s with nothing to do while join(s) %r can no "
+                            "longer be satisfied" % (st, [(b["join"], b["route"], b["srcs"]) for b in ub]))
             if kf is None and st in ("running", "resuming") and not self.cancel_req and not self.pause_req \
                     and not self.ever_paused and not self.ledger.runtime_errors:
                 # "all n are offered when nothing fails and no pause or cancel intervenes"
@@ -1479,9 +1491,10 @@ class World(object):
                         and not self.p.get("fault_info"))
         if (self.status == "succeeded" or failed_plain) and not self.accepted_rerun:
             pairs = L.leaves(with_seq=True)
-            if failed_plain and self.last_done is not None and not any(r is self.last_done.ref for _, r in pairs):
+            ld = self.completing_exec or self.last_done
+            if failed_plain and ld is not None and ld.ref is not None and not any(r is ld.ref for _, r in pairs):
                 # the execution whose report completed the workflow is terminal whatever it decided
-                pairs = sorted(pairs + [(getattr(self.last_done, "seq", 10 ** 9), self.last_done.ref)], key=lambda e: e[0])
+                pairs = sorted(pairs + [(getattr(ld, "seq", 10 ** 9), ld.ref)], key=lambda e: e[0])
             leaves = [r for _, r in pairs]
             if not leaves:
                 return
@@ -1529,8 +1542,9 @@ class World(object):
             if not at_rest or not pairs:
                 # (when the request itself completed the cancellation no task event followed it,
                 # and the engine flags executions terminal only on task events)
-                if not any(r is self.last_done.ref for _, r in pairs):
-                    pairs = sorted(pairs + [(getattr(self.last_done, "seq", 10 ** 9), self.last_done.ref)], key=lambda e: e[0])
+                ld = self.completing_exec or self.last_done
+                if ld.ref is not None and not any(r is ld.ref for _, r in pairs):
+                    pairs = sorted(pairs + [(getattr(ld, "seq", 10 ** 9), ld.ref)], key=lambda e: e[0])
             refs = [r for _, r in pairs]
             fwd = None
             for r in refs:
